@@ -83,6 +83,10 @@ def ensure_facts(config="default", repo=None, quiet=False):
         th = tree_hash(repo)
         out = os.path.join(CACHE, "facts", "%s-%s-%s" % (config, th, _driver_stamp()))
         if os.path.exists(os.path.join(out, "DONE")):
+            try:
+                os.utime(out, None)          # least-recently-used pruning below
+            except OSError:
+                pass
             return out
         if not os.path.exists(DRIVER) or os.path.getmtime(DRIVER) < max(
                 os.path.getmtime(os.path.join(DRIVER_DIR, "src", f))
@@ -93,7 +97,7 @@ def ensure_facts(config="default", repo=None, quiet=False):
         os.makedirs(base, exist_ok=True)
         olds = sorted((os.path.getmtime(os.path.join(base, d)), d) for d in os.listdir(base)
                       if d.startswith(config + "-"))
-        for _, d in olds[:-3]:
+        for _, d in olds[:-6]:
             shutil.rmtree(os.path.join(base, d), ignore_errors=True)
         tmp = out + ".partial"
         shutil.rmtree(tmp, ignore_errors=True)
